@@ -4,7 +4,8 @@
 
   `sc.mu` is explicit: Track, Count and the `delete` at the end of scopeSub.Unsubscribe are lock–op–unlock sections (one
   step each); Close holds `sc.mu` from its entry until it has called `Unsubscribe` on every tracked subscription (one step
-  per subscription, in ANY order — Go iterates over a map) and set `sc.subs = nil`.  An inner subscription is identified
+  per subscription, in ANY order — Go iterates over a map) and set `sc.subs = nil` (`step false`, the code as written;
+  `step true` is the variant that releases `sc.mu` before unsubscribing, used only for a witness).  An inner subscription is identified
   with the wrapper that Track returns for it; each inner subscription is offered to Track once and each wrapper's
   Unsubscribe is called at most once (further calls only repeat idempotent operations).  The inner `Unsubscribe` is the
   feed's (Aqv.Model.Feed: it returns, `remove_terminates`; `errOnce` makes repeated calls no-ops) and is a single step here.
@@ -74,7 +75,7 @@ inductive Act
   | count
   deriving DecidableEq, Repr
 
-def step (s : St) : Act → Option St
+def step (early : Bool) (s : St) : Act → Option St
   -- Track: `sc.mu.Lock(); if sc.closed { return nil }; …; sc.subs[ss] = struct{}{}; return ss`
   | .track i =>
     if s.muFree = true ∧ s.offered i = false then
@@ -88,6 +89,9 @@ def step (s : St) : Act → Option St
   | .closeEnter k =>
     if s.cpc k = .called ∧ s.muFree = true then
       if s.closed = true then some { s with cpc := upd s.cpc k .done, tr := s.tr ++ [.closeRet k] }
+      else if early then
+        -- seeded variant C19-9: `sc.closed = true; subs := sc.subs; sc.subs = nil; sc.mu.Unlock()` and unsubscribe afterwards
+        some { s with closed := true, subs := [], cpc := upd s.cpc k (.running s.subs) }
       else some { s with muFree := false, closed := true, closer := some k, cpc := upd s.cpc k (.running s.subs) }
     else none
   -- `s.s.Unsubscribe()` for some not yet visited key of the map
@@ -103,7 +107,8 @@ def step (s : St) : Act → Option St
     match s.cpc k with
     | .running todo =>
       if todo = [] then
-        some { s with subs := [], muFree := true, closer := none, cpc := upd s.cpc k .done, tr := s.tr ++ [.closeRet k] }
+        if early then some { s with cpc := upd s.cpc k .done, tr := s.tr ++ [.closeRet k] }
+        else some { s with subs := [], muFree := true, closer := none, cpc := upd s.cpc k .done, tr := s.tr ++ [.closeRet k] }
       else none
     | _ => none
   | .wrapCall i =>
@@ -122,17 +127,17 @@ def step (s : St) : Act → Option St
   -- Count: `sc.mu.Lock(); return len(sc.subs)`
   | .count => if s.muFree = true then some { s with tr := s.tr ++ [.count s.subs.length] } else none
 
-def run (s : St) : List Act → Option St
+def run (early : Bool) (s : St) : List Act → Option St
   | [] => some s
-  | a :: as => match step s a with
-    | some s' => run s' as
+  | a :: as => match step early s a with
+    | some s' => run early s' as
     | none => none
 
 inductive Reach : St → Prop
   | init : Reach init
-  | step {s s' : St} (a : Act) : Reach s → step s a = some s' → Reach s'
+  | step {s s' : St} (a : Act) : Reach s → step false s a = some s' → Reach s'
 
-theorem reach_run {s s' : St} (h : Reach s) : ∀ {as : List Act}, run s as = some s' → Reach s' := by
+theorem reach_run {s s' : St} (h : Reach s) : ∀ {as : List Act}, run false s as = some s' → Reach s' := by
   intro as
   induction as generalizing s with
   | nil => intro e; simp [run] at e; exact e ▸ h
